@@ -22,6 +22,7 @@ from typing import Any, Optional
 from frozendict import frozendict
 
 import labtech
+import labtech.cache
 from labtech.cache import BaseCache
 from labtech.types import is_task
 
@@ -349,6 +350,25 @@ VJ = make_vtype('VJ', ['x'], cache=JsonCache())
 VN = make_vtype('VN', ['x'], cache=None)
 VPost = make_vtype('VPost', ['x'], post_init=True)
 VRewrite = make_rewrite_type()
+
+
+class FallbackCache(labtech.cache.PickleCache):
+    """A cache with a say of its own about what is cached: results it finds in a read-only second store (here: a dict) count as
+    cached and are loaded from there."""
+    SHARED = {}
+
+    def is_cached(self, storage, task):
+        return task.cache_key in self.SHARED or super().is_cached(storage, task)
+
+    def load_result_with_meta(self, storage, task):
+        if not super().is_cached(storage, task) and task.cache_key in self.SHARED:
+            from datetime import datetime, timedelta
+            from labtech.types import ResultMeta, TaskResult
+            return TaskResult(value=self.SHARED[task.cache_key], meta=ResultMeta(start=datetime(2021, 2, 3), duration=timedelta(seconds=5)))
+        return super().load_result_with_meta(storage, task)
+
+
+VShared = make_vtype('VShared', ['x'], cache=FallbackCache())
 
 
 class _PostInitMixin:
